@@ -32,7 +32,7 @@ def gen_node(g, kind, in_dim, allow_fb=False):
         d["out_dim"] = in_dim
         if kind == "delay":
             d["delay"] = g.randint(0, 3)
-    elif kind == "linear":
+    elif kind in ("linear", "plainlinear"):
         o = g.randint(1, 3)
         d["out_dim"] = o
         d["Wout"] = g.dymat(in_dim, o, a=2, k=4)
@@ -83,6 +83,20 @@ def make_node(d, name):
         return N.Delay(delay=d["delay"], name=name)
     if k == "nvar":
         return N.NVAR(delay=d["delay"], order=d["order"], strides=d["strides"], name=name)
+    if k == "plainlinear":
+        from reservoirpy.node import Node
+        W = np.array(d["Wout"], dtype=float).reshape(d["in_dim"], d["out_dim"])
+        bvec = np.array(d["bias"], dtype=float).reshape(1, d["out_dim"])
+
+        def lin_forward(node, x):
+            return x @ node.Wout + node.bias
+
+        def lin_init(node, x=None, **kw):
+            if x is not None:
+                node.set_input_dim(x.shape[1])
+                node.set_output_dim(node.Wout.shape[1])
+        return Node(forward=lin_forward, initializer=lin_init, params={"Wout": W, "bias": bvec},
+                    output_dim=d["out_dim"], name=name)
     if k == "linear":
         return N.Ridge(output_dim=d["out_dim"], Wout=np.array(d["Wout"], dtype=float).reshape(d["in_dim"], d["out_dim"]),
                        bias=np.array(d["bias"], dtype=float).reshape(1, d["out_dim"]), name=name)
@@ -114,7 +128,7 @@ def driver_node(d):
         return {**base, "kind": "delay"}
     if k == "nvar":
         return {**base, "kind": "nvar", "order": d["order"], "strides": d["strides"]}
-    if k == "linear":
+    if k in ("linear", "plainlinear"):
         return {**base, "kind": "linear", "Wout": qmat(d["Wout"]), "bias": qvec(d["bias"])}
     if k == "reservoir":
         n = d["out_dim"]
@@ -143,7 +157,7 @@ def init_mem(d):
 KINDS_MID = ["identity", "relu", "linear", "linear", "reservoir", "reservoir", "delay", "nvar", "output"]
 
 
-def gen_graph(g, n_nodes=None, kinds=None, max_width=12):
+def gen_graph(g, n_nodes=None, kinds=None, max_width=12, entry_kinds=("reservoir", "linear", "identity"), wide_kind="linear"):
     """random DAG: returns (descs, edges, entry_dims) with descs in a topological order;
     entries are `input` nodes (or any kind when `kinds` says so)."""
     n = n_nodes or g.randint(2, 7)
@@ -154,7 +168,7 @@ def gen_graph(g, n_nodes=None, kinds=None, max_width=12):
         if i < n_entries:
             dim = g.choice([d for d in (1, 2, 3, 4) if d not in used_dims] or [2])
             used_dims.add(dim)
-            kind = "input" if g.chance(0.7) else g.choice(["reservoir", "linear", "identity"])
+            kind = "input" if g.chance(0.7) else g.choice(list(entry_kinds))
             descs.append(gen_node(g, kind, dim))
             descs[-1]["ext_dim"] = dim
             continue
@@ -169,9 +183,9 @@ def gen_graph(g, n_nodes=None, kinds=None, max_width=12):
         in_dim = sum(descs[p]["out_dim"] for p in ps)
         kind = g.choice(kinds or KINDS_MID)
         if kind == "nvar" and in_dim > 3:
-            kind = "linear"
+            kind = wide_kind
         if in_dim > max_width and kind in ("identity", "relu", "delay", "output", "nvar"):
-            kind = "linear"
+            kind = wide_kind
         descs.append(gen_node(g, kind, in_dim))
         for p in ps:
             edges.append((p, i))
